@@ -8,32 +8,42 @@ def post : Str := s "POST"
 def req (m p : String) : Req := ⟨s m, true, s "http", s "localhost", s p⟩
 
 /-- #14: template /b/{x}, request GET /b -/
-def d14 : Doc := ⟨[⟨s "/b/{x}", [get]⟩], []⟩
+def d14 : Doc := ⟨[⟨s "/b/{x}", [get], []⟩], []⟩
 /-- #14: template /a/{x}/c/{y}, request GET /a//c/1 -/
-def d14b : Doc := ⟨[⟨s "/a/{x}/c/{y}", [get]⟩], []⟩
+def d14b : Doc := ⟨[⟨s "/a/{x}/c/{y}", [get], []⟩], []⟩
 /-- #14: template /a/{x}, request GET /a/zz/ -/
-def d14c : Doc := ⟨[⟨s "/a/{x}", [get]⟩], []⟩
+def d14c : Doc := ⟨[⟨s "/a/{x}", [get], []⟩], []⟩
 /-- #40: /a/{x} declares GET, literal /a/b declares only POST -/
-def d40 : Doc := ⟨[⟨s "/a/{x}", [get]⟩, ⟨s "/a/b", [post]⟩], []⟩
+def d40 : Doc := ⟨[⟨s "/a/{x}", [get], []⟩, ⟨s "/a/b", [post], []⟩], []⟩
 /-- #33: server https://{env}.example.com with enum [prod, dev] -/
-def d33 : Doc := ⟨[⟨s "/a", [get]⟩], [⟨s "https://{env}.example.com", [⟨s "env", s "prod", [s "prod", s "dev"]⟩]⟩]⟩
+def d33 : Doc := ⟨[⟨s "/a", [get], []⟩], [⟨s "https://{env}.example.com", [⟨s "env", s "prod", [s "prod", s "dev"]⟩]⟩]⟩
 def r33 : Req := ⟨get, true, s "https", s "qa.example.com", s "/a"⟩
 def r33ok : Req := ⟨get, true, s "https", s "dev.example.com", s "/a"⟩
 /-- documented legacy limitation: /books/{id}.json -/
-def dMid : Doc := ⟨[⟨s "/books/{id}.json", [get]⟩], []⟩
+def dMid : Doc := ⟨[⟨s "/books/{id}.json", [get], []⟩], []⟩
 /-- legacy URL form: relative server, absolute request URL -/
-def dForm : Doc := ⟨[⟨s "/a", [get]⟩], [⟨s "/v1", []⟩]⟩
+def dForm : Doc := ⟨[⟨s "/a", [get], []⟩], [⟨s "/v1", []⟩]⟩
 def rFormAbs : Req := ⟨get, true, s "http", s "localhost", s "/v1/a"⟩
 def rFormRel : Req := ⟨get, false, s "http", s "localhost", s "/v1/a"⟩
 /-- a non-trivial family: shared prefixes, literal/templated siblings, two variables, mid-segment variable -/
-def dFam : Doc := ⟨[⟨s "/a/{x}", [get, post]⟩, ⟨s "/a/b", [get]⟩, ⟨s "/a/{x}/c/{y}", [get]⟩, ⟨s "/report.{format}", [get]⟩],
+def dFam : Doc := ⟨[⟨s "/a/{x}", [get, post], []⟩, ⟨s "/a/b", [get], []⟩, ⟨s "/a/{x}/c/{y}", [get], []⟩, ⟨s "/report.{format}", [get], []⟩],
   [⟨s "https://{env}.example.com:{port}/v1/", [⟨s "env", s "prod", [s "prod", s "dev"]⟩, ⟨s "port", s "8443", []⟩]⟩]⟩
 def rFam (m p : String) : Req := ⟨s m, true, s "https", s "dev.example.com:8443", s p⟩
 
 /-- legacy first-server commitment: two servers match the URL, only the second one leads to a template -/
-def dFirst : Doc := ⟨[⟨s "/b", [s "PUT"]⟩],
+def dFirst : Doc := ⟨[⟨s "/b", [s "PUT"], []⟩],
   [⟨s "{scheme}://api.test", [⟨s "scheme", s "https", [s "https", s "http"]⟩]⟩,
    ⟨s "https://api.test/{ver}", [⟨s "ver", s "v1", [s "v1", s "v2"]⟩]⟩]⟩
 def rFirst : Req := ⟨s "PUT", true, s "https", s "api.test", s "/v2/b"⟩
+
+/-- two document-level servers with different base paths -/
+def dTwo : Doc := ⟨[⟨s "/a", [get], []⟩, ⟨s "/b/{x}", [get], []⟩], [⟨s "/v1", []⟩, ⟨s "/v2/x", []⟩]⟩
+def reqRel (m p : String) : Req := ⟨s m, false, s "http", s "localhost", s p⟩
+/-- two keys at one node of the legacy trie -/
+def dColl : Doc := ⟨[⟨s "/a", [get], []⟩, ⟨s "/a/", [get], []⟩], []⟩
+/-- path-item level servers: /b has its own, /a has none; matching order is /b, /a -/
+def dLeak : Doc := ⟨[⟨s "/a", [get], []⟩, ⟨s "/b", [get], [⟨s "/p", []⟩]⟩], [⟨s "/v1", []⟩]⟩
+/-- path-item level servers on the only path -/
+def dPathSrv : Doc := ⟨[⟨s "/a", [get], [⟨s "/p", []⟩]⟩], [⟨s "/v1", []⟩]⟩
 
 end KinModel.Router.W
